@@ -13,6 +13,7 @@ Over-estimation is never a violation.
 """
 
 import itertools
+import random
 import warnings
 
 import ufl
@@ -21,15 +22,7 @@ from ufl.algorithms.compute_form_data import attach_estimated_degrees, preproces
 from ufl.algorithms.estimate_degrees import estimate_total_polynomial_degree
 
 from .. import elements as E
-from ..c18_exact import (
-    DegreeTooHigh,
-    ExactBackend,
-    NotPolynomial,
-    OracleError,
-    Probe,
-    UnknownNode,
-    true_degree,
-)
+from ..c18_exact import DegreeTooHigh, ExactBackend, NotPolynomial, Probe, UnknownNode, true_degree
 from ..gen import Gen, Universe
 from ..jet import IllConditioned
 from ..passcheck import node_classes, safe_str, skeleton, subexpressions
@@ -139,6 +132,8 @@ def _build_sweep():
                     for pi, part in enumerate(parts):
                         for sc in itertools.product(*[range(n) for n in part.ufl_shape]):
                             full.append((ci, name, kind, (pi,) + tuple(sc), "split"))
+    # fixed shuffle: a time-truncated run then sees a uniform sample of cells / elements / templates
+    random.Random(18).shuffle(full)
     return {"quick": [s for s in full if _in_quick(s)], "thorough": full}
 
 
@@ -156,7 +151,7 @@ def _in_quick(s):
 
 
 SWEEP = _build_sweep()
-NCASES = {"quick": (len(SWEEP["quick"]) * 4) // 3 + 64, "thorough": (len(SWEEP["thorough"]) * 4) // 3 + 30000}
+NCASES = {"quick": (len(SWEEP["quick"]) * 4) // 3 + 64, "thorough": (len(SWEEP["thorough"]) * 4) // 3 + 20000}
 # a full quick run on a quiet machine observes about: events_judged 23000, sweep_cases_judged 3850, random_cases_judged 1520,
 # tight_events 16000, hetero_component_events 11000, cfd_events_judged 5600, attach_events_judged 5900 (floors ~35 %)
 FLOORS = {
@@ -183,11 +178,11 @@ class Skip(Exception):
         self.why = why
 
 
-def measure(ctx, e, probes, memo=None):
+def measure(ctx, e, probes, memo=None, side=None):
     """True degree of e or Skip(reason)."""
     stats = {}
     try:
-        d, U = true_degree(e, probes, QB, stats, memo)
+        d, U = true_degree(e, probes, QB, stats, memo, side)
     except NotPolynomial as ex:
         raise Skip("not-polynomial:" + str(ex)[:40])
     except UnknownNode as ex:
@@ -254,16 +249,19 @@ def elemsig(f):
 
 
 def mechanism(culprit):
+    """Mechanism key part: the class of the smallest under-estimated node; for a component of a form argument also the
+    index pattern and the structure of its element."""
     while type(culprit).__name__ in ("PositiveRestricted", "NegativeRestricted"):
         culprit = culprit.ufl_operands[0]  # an unrestricted operand has no single value on an interior facet
     name = type(culprit).__name__
     if name == "Power":
         return "Power/" + type(culprit.ufl_operands[1]).__name__ + "-exponent"
-    sk = skeleton(culprit, 1)
     f = form_argument_of(culprit)
     if f is not None:
-        return sk + "/" + elemsig(f)
-    return sk
+        return skeleton(culprit, 1) + "/" + elemsig(f)
+    if name == "Indexed":
+        return "Indexed(" + type(culprit.ufl_operands[0]).__name__ + ")"
+    return name
 
 
 _NO_VALUE = {"MultiIndex", "Label", "ExprList", "ExprMapping", "EQ", "NE", "LT", "GT", "LE", "GE", "AndCondition", "OrCondition", "NotCondition"}
@@ -284,8 +282,14 @@ def localise(ctx, expr, probes, limit=120):
             continue
         try:
             t = measure(ctx, sub, probes, memo)
-        except Skip:
-            continue
+        except Skip as sk:
+            if sk.why != "ambiguous-unrestricted-value":
+                continue
+            # an operand of a restriction on an interior facet: look at it on one side
+            try:
+                t = measure(ctx, sub, probes, memo, side="+")
+            except Skip:
+                continue
         if d < t:
             return sub, d, t
     return None, None, None
@@ -309,7 +313,7 @@ def judge_direct(ctx, event, expr, true, probes, info):
         culprit, cd, ct = localise(ctx, expr, probes)
         if culprit is None:
             culprit, cd, ct = expr, d, true
-            key = "C18/underestimate/unlocalised/" + skeleton(expr, 1)
+            key = "C18/underestimate/unlocalised/" + type(expr).__name__
         else:
             key = "C18/underestimate/" + mechanism(culprit)
         ctx.violation(
@@ -702,6 +706,3 @@ def case(ctx, i, rng):
         ctx.count("random_cases")
         random_case(ctx, i, rng)
 
-
-def finish(ctx):
-    pass
